@@ -1,6 +1,6 @@
 /- trace-validation driver of the C46 model: one history per line
-     <name> o<p> l<p> u<p> x<p> k<p> K<p> v<n> v-
-   (open, lock, unlock, exit, kill outside / inside a critical section, observed semaphore value)
+     <name> o<p> l<p> i<p> u<p> x<p> k<p> K<p> v<n> v-
+   (open, lock, sem_wait interrupted (EINTR), unlock, exit, kill outside / inside a critical section, observed semaphore value)
    answer: <name> fixed=<accept|reject@k:tok:sem:pstate> orig=<accept|reject@k> maxholders=<n> final=<sem> -/
 import TfelVerif.C46.Model
 open TfelVerif.LTS TfelVerif.C46
@@ -12,13 +12,14 @@ def parseEvent (t : String) : Option Event :=
   | 'o' => rest.toNat?.map .openSem
   | 'l' => rest.toNat?.map .lock
   | 'u' => rest.toNat?.map .unlock
+  | 'i' => rest.toNat?.map .intr
   | 'x' => rest.toNat?.map .exit
   | 'k' => rest.toNat?.map .kill
   | 'K' => rest.toNat?.map .killcs
   | _ => none
 
 def evProc : Event → Nat
-  | .openSem p | .lock p | .unlock p | .exit p | .kill p | .killcs p => p
+  | .openSem p | .lock p | .intr p | .unlock p | .exit p | .kill p | .killcs p => p
   | .value _ => 0
 
 def showSem : Option Nat → String
